@@ -428,4 +428,86 @@ theorem is_finite_modf_fst {x : F64} (h : x.is_finite = true) : (F64.modf x).1.i
 
 end libm
 
+section valid
+open F64
+
+/-! ## 4. structure of a valid pair -/
+
+/-- half-ulp structure of a valid pair: the high word is a multiple of some `2^e` and the low word is at most
+`2^e / 2` in magnitude -/
+theorem valid_ulp {x : TwoFloat} (h : x.Valid) :
+    ∃ e : ℕ, (2 : ℤ) ^ e ∣ x.hi.toInt ∧ 2 * |x.lo.toInt| ≤ 2 ^ e := by
+  have hH := h.hi_toInt
+  have hV : x.V = x.hi.toInt + x.lo.toInt := rfl
+  generalize x.V = v at hH hV
+  generalize x.hi.toInt = H at hH hV
+  generalize x.lo.toInt = L at hV
+  refine ⟨Nat.log2 v.natAbs - 52, ?_, ?_⟩
+  · have hd : ((2 ^ (Nat.log2 v.natAbs - 52) : ℕ) : ℤ) ∣ ((rn53 v.natAbs : ℕ) : ℤ) :=
+      Int.natCast_dvd_natCast.2 (by rw [rn53_eq]; exact Nat.dvd_mul_left _ _)
+    rw [Int.natCast_pow] at hd
+    by_cases hv : v < 0
+    · rw [rnI_of_neg hv] at hH; rw [hH]; exact (dvd_neg).2 hd
+    · rw [rnI_of_nonneg (by omega)] at hH; rw [hH]; exact hd
+  · have herr := rn53_abs_err v.natAbs
+    rw [Int.natCast_pow] at herr
+    refine le_trans ?_ herr
+    have hn : ((v.natAbs : ℕ) : ℤ) = |v| := Int.natCast_natAbs v
+    by_cases hv : v < 0
+    · rw [rnI_of_neg hv] at hH
+      have : L = (rn53 v.natAbs : ℤ) - v.natAbs := by rw [hn, abs_of_neg hv]; omega
+      rw [this]
+    · rw [rnI_of_nonneg (by omega)] at hH
+      have : L = -((rn53 v.natAbs : ℤ) - v.natAbs) := by rw [hn, abs_of_nonneg (by omega)]; omega
+      rw [this, abs_neg]
+
+/-- spec-level validity in scaled integers, converse of `Valid.hi_toInt` -/
+theorem valid_of_rnI {a b : F64} (ha : a.is_finite = true) (hb : b.is_finite = true) (hw : a.WF)
+    (h : a.toInt = rnI (a.toInt + b.toInt)) : (⟨a, b⟩ : TwoFloat).Valid := by
+  refine ⟨ha, hb, ?_⟩
+  obtain ⟨s, n, rfl⟩ := is_finite_iff.mp ha
+  obtain ⟨u, m, rfl⟩ := is_finite_iff.mp hb
+  show F64.addEq (fin s n) (fin u m) = true
+  unfold F64.addEq
+  generalize hv : (fin s n).toInt + (fin u m).toInt = v at h
+  have hadd : F64.add (fin s n) (fin u m) = F64.roundSigned v 1 (s && u) := by rw [← hv]; rfl
+  rw [hadd]
+  unfold F64.roundSigned
+  by_cases h0 : v = 0
+  · rw [if_pos h0, eq_iff_toInt rfl rfl, toInt_zero, h, h0, rnI_zero]
+  · rw [if_neg h0]
+    have hn : n ≤ maxFin := hw.2
+    have hr : rn53 v.natAbs = n := by
+      by_cases hneg : v < 0
+      · rw [rnI_of_neg hneg] at h
+        cases s <;> simp only [toInt] at h <;> omega
+      · rw [rnI_of_nonneg (by omega)] at h
+        cases s <;> simp only [toInt] at h <;> omega
+    unfold F64.pack
+    have hr' : roundQ v.natAbs 1 = n := hr
+    rw [hr', if_neg (by omega), eq_iff_toInt rfl rfl]
+    by_cases hneg : v < 0
+    · rw [rnI_of_neg hneg, hr] at h
+      cases s <;> simp only [hneg, decide_true, toInt] at h ⊢
+      all_goals omega
+    · rw [rnI_of_nonneg (by omega), hr] at h
+      cases s <;> simp only [hneg, decide_false, toInt] at h ⊢
+      all_goals omega
+
+/-- a finite well-formed double paired with a zero low word -/
+theorem pair_zero_ok {c l : F64} (hc : c.is_finite = true) (hw : c.WF) (hl : l.is_finite = true)
+    (hl0 : l.toInt = 0) : (⟨c, l⟩ : TwoFloat).V = c.toInt ∧ (⟨c, l⟩ : TwoFloat).Valid := by
+  refine ⟨by simp [TwoFloat.V, hl0], valid_of_rnI hc hl hw ?_⟩
+  rw [hl0, add_zero, roundFacts.rnI_toInt hw]
+
+theorem from_ok {c : F64} (hc : c.is_finite = true) (hw : c.WF) :
+    (convert.impl_From_f64_for_TwoFloat.from c).V = c.toInt ∧
+      (convert.impl_From_f64_for_TwoFloat.from c).Valid := by
+  unfold convert.impl_From_f64_for_TwoFloat.from
+  rw [f64lit_zero]
+  exact pair_zero_ok (c := c) hc hw rfl rfl
+
+
+end valid
+
 end C08
